@@ -1,14 +1,20 @@
 package main
 
 import (
+	"context"
 	"fmt"
 	"runtime"
 	"strconv"
 	"strings"
+	"sync"
+	"time"
+
+	simplefixgo "github.com/b2broker/simplefix-go"
 
 	"verifharness/fixref"
 	"verifharness/gen"
 	"verifharness/vk"
+	"verifharness/wire"
 )
 
 // selfReferring: the decoy is not just any text 'tag=' but the exact bytes of the message's own closing field —
@@ -166,4 +172,77 @@ func selfReferring(c *vk.Ctx) {
 			}
 		}
 	})
+}
+
+// pausedStreams: the peer's bytes stop for 1.3 s in the middle of a field value, and what follows the pause begins
+// with the text of the CheckSum tag ('10=abc' inside a Text value; a field 110 whose tag is cut behind its first
+// digit). A pause is not a field boundary: the connection delivers the message whole.
+func pausedStreams(c *vk.Ctx) {
+	type cs struct {
+		name         string
+		fields       []fixref.Field
+		cutBeforeSub string // the pause sits right before the first occurrence of this text inside the message
+	}
+	cases := []cs{
+		{"text-10=-inside-a-value", []fixref.Field{fixref.F("58", "see 10=abc for details"), fixref.F("354", "1")}, "10=abc"},
+		{"tag-110-cut-behind-its-first-digit", []fixref.Field{fixref.F("58", "x"), fixref.F("110", "7")}, "10=7"},
+		{"text-10=-at-the-start-of-a-value-cut-behind-the-equals-sign", []fixref.Field{fixref.F("58", "10=999"), fixref.F("354", "1")}, "10=999"},
+		{"genuine-checksum-field-cut-before-its-tag", []fixref.Field{fixref.F("58", "plain")}, "\x0110="},
+	}
+	var wg sync.WaitGroup
+	for i := range cases {
+		wg.Add(1)
+		go func(i int) {
+			defer wg.Done()
+			ce := cases[i]
+			m1 := fixref.Encode(fixref.Std, "FIX.4.4", "D", ce.fields)
+			m2 := fixref.Encode(fixref.Std, "FIX.4.4", "0", []fixref.Field{fixref.F("112", "after")})
+			at := strings.Index(string(m1), ce.cutBeforeSub)
+			if ce.cutBeforeSub == "\x0110=" {
+				at++ // behind the delimiter, in front of the tag
+			}
+			if at <= 0 {
+				c.Inconclusive("paused-stream case without its cut position: " + ce.name)
+				return
+			}
+			conn := wire.NewConn("c18-pause", false)
+			h := &recorder{out: make(chan []byte), errs: make(chan error, 2)}
+			h.ctx, h.stop = context.WithCancel(context.Background())
+			ini := simplefixgo.NewInitiator(conn, h, 0, time.Second)
+			done := make(chan struct{})
+			go func() { ini.Serve(); close(done) }()
+			conn.Feed(m1[:at])
+			time.Sleep(1300 * time.Millisecond)
+			conn.Feed(m1[at:])
+			conn.Feed(m2)
+			deadline := time.Now().Add(3 * time.Second)
+			for time.Now().Before(deadline) {
+				h.mu.Lock()
+				n := len(h.got)
+				h.mu.Unlock()
+				if n >= 2 {
+					break
+				}
+				time.Sleep(2 * time.Millisecond)
+			}
+			time.Sleep(5 * time.Millisecond)
+			h.mu.Lock()
+			got := append([][]byte(nil), h.got...)
+			h.mu.Unlock()
+			ini.Close()
+			h.Stop()
+			<-done
+			c.Eval(vk.Hash64([]byte("paused-stream"), []byte(ce.name)), true)
+			c.Count("paused_streams", 1)
+			c.SetAdd("cells", "checksum/conn-end-of-message/pause-inside-a-value/"+ce.name)
+			if len(got) != 2 || string(got[0]) != string(m1) || string(got[1]) != string(m2) {
+				first := "nothing"
+				if len(got) > 0 {
+					first = vk.Trunc(fixref.Pretty(got[0]), 200)
+				}
+				c.Violate("C18/conn-end-of-message/pause-inside-a-value", fmt.Sprintf("%s: the stream paused for 1.3 s at byte %d of the first message; the connection delivered %d messages for 2 sent, the first as %s", ce.name, at, len(got), first), map[string]interface{}{"case": ce.name, "cut_at": at})
+			}
+		}(i)
+	}
+	wg.Wait()
 }
